@@ -1300,10 +1300,10 @@ Proof.
       unfold bounds_ok. change (now (set_timer s2 tm)) with (now s2). rewrite Now2. tauto.
   - intros e He. change (E (set_timer s2 tm)) with (E s2) in He. destruct (Hexp e He) as [H1 [H2 _]]. tauto.
   - exact Now2.
-  - unfold tm. simpl. rewrite Now2. unfold tick_interval.
+  - unfold tm. simpl. rewrite Now2. pose proof (proj1 consts_wf) as Tp.
     destruct (heap_min (heap s2)) as [m|]; [|lia].
     destruct (0 <? m - now s) eqn:E1; [|lia]. apply Z.ltb_lt in E1.
-    destruct (100000000 <? m - now s) eqn:E2; [lia|]. apply Z.ltb_ge in E2. lia.
+    destruct (tick_interval <? m - now s) eqn:E2; [lia|]. apply Z.ltb_ge in E2. lia.
 Qed.
 
 (* ---- every operation, every history ---- *)
